@@ -1,4 +1,5 @@
 import OrdModel.Proofs.IndexInslocReveal
+import OrdModel.Proofs.IndexLiftSatC03
 /-!
 # C03 — Inscriptions move with the sat they were inscribed on
 
@@ -17,10 +18,14 @@ and that the oracle evaluated on the implementation's dump is the stated predica
     theorem c03_reachable (cfg blocks st) (hsats : cfg.indexSats) (hvalid : ValidChain cfg blocks)
         (h : run cfg blocks = .ok st) : OnSat st
 
-is NOT proved: it needs C01's first-in-first-out equation for `indexTransactionSats` read
-pointwise (`den(out₁) ++ … ++ den(leftover) = den(inputs)`, sibling group `sats`), the block
-invariant `reward = subsidy + Σ fees so far`, `rangesValue (null entry) = lostSats`, and the lift
-through `indexTx` / `flushCache` shared with C04.
+is NOT proved.  Its sat-side ingredients now are (last section): C01's first-in-first-out equation
+for `indexTransactionSats` read pointwise (`c03_fifo_pointwise`), the block invariant
+`reward = subsidy + Σ fees so far` (`c03_reward_invariant`), `rangesValue (null entry) = lostSats`
+for every reachable state (`c03_null_value_invariant`), and the two compositions
+`c03_carry_points_at_sat` / `c03_lost_points_at_sat`; C04's `InsPartitioned` for reachable states
+exists too (`c04_reachable`).  What remains is the offset-tracking lift itself: an invariant
+"every listed `(seq, offset)` of every table / cache entry denotes `entries[seq].sat`" carried
+through the placement loop, `indexTx` and `flushCache` (notes/C03.md).
 -/
 namespace Ord.Index.Insloc
 open Ord Ord.Index
@@ -217,6 +222,76 @@ theorem c03_index_inscriptions_is_scan_then_place (cfg : Cfg) (height time : Nat
             (if cfg.indexTransactions && !tx.envelopes.isEmpty then
               { ls.st with txid2tx := AL.set ls.st.txid2tx tx.txid tx.size } else ls.st) ls :=
   indexInscriptions_eq cfg height time tx inputs rs ls
+
+/-! ## The sat-side ingredients of the reachable-state clause (Proofs/IndexLiftSat*.lean)
+
+What the header lists as missing for `c03_reachable`, proved about the real `applyBlock` /
+`indexTx` model for every configuration with the sat index on: C01's FIFO equation read
+pointwise, `reward = subsidy + Σ fees so far` (as the size of the ranges queued for the
+coinbase), `rangesValue (null entry) = lostSats` in every reachable state, and the two
+compositions that say a carried / lost offset points at the inscription's sat.  (`den` here is
+this group's `Insloc.den`; it is the same function as the sat group's, `insloc_den_eq`.)
+Still open: threading these through the placement loop and `flushCache` to `OnSat` itself
+(notes/C03.md). -/
+
+/-- **FIFO, pointwise** (`index_transaction_sats`): the sat at offset `k` of the concatenated
+input ranges is the sat at offset `k − (values of the earlier outputs)` of the output whose value
+interval contains `k`, and what lies at or beyond the total output value is, at `k − Σ values`,
+in the leftover. -/
+theorem c03_fifo_pointwise (values : List Nat) (inputs : List (Nat × Nat)) (t : TxSats)
+    (h : indexTransactionSats values inputs = some t) :
+    (∀ j k, (hj : j < values.length) → k < values[j] →
+      (den (t.outputs[j]?.getD []))[k]? = (den inputs)[(values.take j).sum + k]?) ∧
+    (∀ k, (den t.leftover)[k]? = (den inputs)[values.sum + k]?) := by
+  simp only [insloc_den_eq]
+  exact fifo_pointwise values inputs t h
+
+/-- **`reward = subsidy + Σ fees so far`**: after any prefix of the non-first transactions of a
+block, indexed by the real `indexTx` with the inscription pass on, the inscription updater's
+running reward is exactly the size of the sat ranges queued for the coinbase (the subsidy range
+followed by the leftovers so far), which is the subsidy plus what the leftovers added.
+(`BlockPlain`: no zero txid, no spend of a special outpoint outside the first transaction.) -/
+theorem c03_reward_invariant (cfg : Cfg) (hs : cfg.indexSats = true) (st : State) (blk : Block)
+    (hb : BlockPlain blk) (cbtx : Tx) (rest : List Tx) (htx : blk.txs = cbtx :: rest) (k : Nat) (bc : BlockCtx)
+    (h : indexTxs cfg blk true ((enumFrom 1 rest).take k) (Sched.bc0A cfg st blk) = .ok bc) :
+    bc.ins.reward = lenR bc.coinbaseInputs ∧
+    lenR bc.coinbaseInputs = subsidy blk.height + (lenR bc.coinbaseInputs - subsidy blk.height) :=
+  block_reward cfg hs st blk hb cbtx rest htx k bc h
+
+/-- **`rangesValue (null entry) = lostSats`** in every reachable state of the full index model
+(sat index on; `ChainPlain`: every block `BlockPlain`). -/
+theorem c03_null_value_invariant (cfg : Cfg) (hs : cfg.indexSats = true) (chain : List Block)
+    (hp : ChainPlain chain) (st : State) (evs : List Event) (h : run cfg chain = .ok (st, evs)) :
+    rangesValue (rangesAt st.utxo OutPoint.null) = st.lostSats := by
+  rw [rangesValue_eq_lenR]
+  exact reachable_nullLen cfg hs chain hp st evs h
+
+/-- **A carried inscription stays on its sat**: with `reward` as in `c03_reward_invariant`, the
+offset `reward + k − Σ outputs` of `c03_fee_carry` (`k ≥ Σ outputs`) denotes, in the coinbase's
+input ranges after this transaction's leftover was appended, the sat at offset `k` of the
+transaction's inputs. -/
+theorem c03_carry_points_at_sat (cbi : List (Nat × Nat)) (values : List Nat) (inputs : List (Nat × Nat))
+    (t : TxSats) (h : indexTransactionSats values inputs = some t) (reward : Nat) (hr : reward = lenR cbi)
+    (k : Nat) (hk : values.sum ≤ k) :
+    (den (cbi ++ t.leftover))[reward + k - values.sum]? = (den inputs)[k]? := by
+  simp only [insloc_den_eq]
+  exact carry_points_at_sat cbi values inputs t h reward hr k hk
+
+/-- **A lost inscription stays on its sat**: with `lostSats` as in `c03_null_value_invariant`,
+the offset `lostSats + k − Σ coinbase outputs` of `c03_lost_placement` denotes, in the null
+entry after the block's lost ranges (the coinbase's leftover) were merged in, the sat at offset
+`k` of the coinbase's input ranges. -/
+theorem c03_lost_points_at_sat (old : List (Nat × Nat)) (values : List Nat) (cbi : List (Nat × Nat))
+    (t : TxSats) (h : indexTransactionSats values cbi = some t) (lostSats : Nat) (hl : lenR old = lostSats)
+    (k : Nat) (hk : values.sum ≤ k) :
+    (den (old ++ t.leftover))[lostSats + k - values.sum]? = (den cbi)[k]? := by
+  simp only [insloc_den_eq]
+  exact lost_points_at_sat old values cbi t h lostSats hl k hk
+
+example : indexTransactionSats [3] [(5, 10)] = some ⟨[[(5, 8)]], [(8, 10)], []⟩ := by
+  simp [indexTransactionSats, indexTransactionSatsAux, fillOutput, satRare, satThird, satEpoch, satEpochAux,
+    epochStartingSat, epochSubsidy]
+example : ChainPlain [] := fun _ h => by cases h
 
 /-- Non-vacuity: on a concrete transaction (inscription 0 at offset 10 of the spent output, one
 envelope, outputs 600 (OP_RETURN) + 300, fee 100) the model places the new inscription at offset
